@@ -109,6 +109,18 @@ fn main() {
             }
             println!("OK property={} tier={} seed={}", p.id, tier.name(), seed);
         }
+        "gen-fuzz-seeds" => {
+            // pcv gen-fuzz-seeds <dir> : write deterministic seed inputs for every fuzz target
+            let dir = PathBuf::from(args.get(2).unwrap_or_else(|| usage()));
+            for (t, _) in pcv::fuzzsupport::TARGETS {
+                let d = dir.join(t);
+                std::fs::create_dir_all(&d).unwrap();
+                for (i, inp) in pcv::fuzzsupport::seed_inputs(t, 48).iter().enumerate() {
+                    std::fs::write(d.join(format!("seed-{:02}", i)), inp).unwrap();
+                }
+            }
+            println!("seeds written to {}", dir.display());
+        }
         "fuzz-replay" => {
             // pcv fuzz-replay <target> <artifact> : run one libFuzzer input through the target's oracles
             let target = args.get(2).unwrap_or_else(|| usage()).clone();
